@@ -307,11 +307,11 @@ func rewriteFile(p *packages.Package, f *ast.File, fe *fileEdits, st *stats, rel
 			switch pkgOf(id) {
 			case "sync":
 				switch n.Sel.Name {
-				case "Mutex", "RWMutex", "WaitGroup", "Once":
+				case "Mutex", "RWMutex", "WaitGroup", "Once", "Map":
 					fe.add(off(id.Pos()), len(id.Name), "zzsim")
 					fe.keep[id.Name] = id.Name + ".Locker"
 					st.SyncTypes++
-				case "Cond", "NewCond", "Map", "OnceFunc", "OnceValue", "OnceValues":
+				case "Cond", "NewCond", "OnceFunc", "OnceValue", "OnceValues":
 					unsupported(n.Pos(), "sync."+n.Sel.Name)
 				}
 			case "time":
